@@ -484,4 +484,49 @@ theorem local2Global_proper (bf : Frame ℝ) (xipos : V3 ℝ) (ximat : M9 ℝ) (
     rw [← h]; exact hi
   · simp [h0, h1, h2, h3, h4] at h
 
+
+/-! ### non-vacuity -/
+
+noncomputable def exB1 : Body ℝ :=
+  { parent := 0, pos := (0, 0, 1), quat := (1, 0, 0, 0), mocap := false,
+    joints := [{ pos := (0, 0, 0), axis := (0, 0, 1), jq := JointQ.hinge (1/2) 0 }] }
+noncomputable def exB2 : Body ℝ :=
+  { parent := 1, pos := (1, 0, 0), quat := (0, 1, 0, 0), mocap := false,
+    joints := [{ pos := (0, 0, 0), axis := (1, 0, 0), jq := JointQ.slide (1/3) 0 },
+               { pos := (0, 1, 0), axis := (0, 0, 1), jq := JointQ.ball (0, 0, 1, 0) }] }
+
+/-- a two-body chain (hinge on the first body; slide + ball on the second, which hangs on the first) satisfies the
+hypotheses of `fk_frames_proper` and the model returns frames for it -/
+example : (∀ b ∈ [exB1, exB2], BodyWF b) ∧ ∃ outs, fk [exB1, exB2] = some outs := by
+  refine ⟨?_, ?_⟩
+  · intro b hb
+    simp only [List.mem_cons, List.mem_nil_iff, or_false] at hb
+    rcases hb with rfl | rfl
+    · refine ⟨by simp [exB1, normSq4], ?_⟩
+      intro j hj
+      simp only [exB1, List.mem_cons, List.mem_nil_iff, or_false] at hj
+      subst hj; simp [JointWF, normSq3]
+    · refine ⟨by simp [exB2, normSq4], ?_⟩
+      intro j hj
+      simp only [exB2, List.mem_cons, List.mem_nil_iff, or_false] at hj
+      rcases hj with rfl | rfl <;> simp [JointWF, normSq4]
+  · simp [fk, fkLoop, bodyFK, regularBody, startPose, jointLoop, jointStep, exB1, exB2]
+
+/-- the hypotheses of `hinge_column_is_derivative` are satisfiable -/
+example : normSq4 ((1, 0, 0, 0) : Q4 ℝ) = 1 ∧ normSq3 ((0, 0, 1) : V3 ℝ) = 1 := by
+  simp [normSq4, normSq3]
+
+/-- the hypotheses of `differentiate_integrate_ball_partial` are satisfiable: q = 1, w = e_x, dt = 1 (1 rad) -/
+example : normSq4 quatOne = 1 ∧ minval ≤ Real.sqrt (normSq3 ((1 : ℝ), (0 : ℝ), (0 : ℝ))) ∧
+    |(1 : ℝ) * Real.sqrt (normSq3 ((1 : ℝ), (0 : ℝ), (0 : ℝ)))| ≤ piLit ∧
+    minval ≤ |Real.sin ((1 : ℝ) * Real.sqrt (normSq3 ((1 : ℝ), (0 : ℝ), (0 : ℝ))) * (1/2))| := by
+  have e : Real.sqrt (normSq3 ((1 : ℝ), (0 : ℝ), (0 : ℝ))) = 1 := by simp [normSq3]
+  rw [e]
+  refine ⟨by simp [normSq4, quatOne], minval_lt_one.le, ?_, ?_⟩
+  · unfold piLit; norm_num
+  · have hs := Real.sin_gt_sub_cube (x := (1 : ℝ) * 1 * (1/2)) (by norm_num)
+    have hm : minval < 1/4 := by unfold minval; norm_num
+    rw [abs_of_pos (by nlinarith)]
+    nlinarith
+
 end MjProof.C07
